@@ -49,7 +49,7 @@ def valid(case):
 
 @st.composite
 def program(draw):
-    tools = st.sampled_from([None, None, "nbdime", "meld", "kdiff3"])
+    tools = st.sampled_from([None, None, "nbdime", "nbdime", "meld", "kdiff3", "nbdime-vscode", "my-nbdime"])
     prompts = st.sampled_from([None, None, "true", "false"])
     init = {
         "local": {"merge.tool": draw(tools), "diff.guitool": draw(tools), "difftool.prompt": draw(prompts), "mergetool.prompt": draw(prompts)},
@@ -57,6 +57,8 @@ def program(draw):
         "attrs_local": draw(st.sampled_from([None, None] + FOREIGN_ATTRS + ["*.ipynb\tdiff=jupyternotebook\n", "*.csv text\n\n*.ipynb\tmerge=jupyternotebook\n"])),
         "attrs_global": draw(st.sampled_from([None, None] + FOREIGN_ATTRS)),
         "other_driver": draw(st.booleans()),
+        # a repository whose .git is a gitfile (git init --separate-git-dir; same shape as a linked work tree or a submodule)
+        "gitfile": draw(st.sampled_from([False, False, False, True])),
     }
     cmds = []
     for _ in range(draw(st.integers(1, 6))):
@@ -87,7 +89,10 @@ class Sandbox:
         self.saved_env = dict(os.environ)
         self.saved_cwd = os.getcwd()
         os.environ.update(self.env)
-        self.git("init", "-q", "-b", "main")
+        if init.get("gitfile"):
+            self.git("init", "-q", "-b", "main", "--separate-git-dir", os.path.join(self.top, "gitdir"))
+        else:
+            self.git("init", "-q", "-b", "main")
         os.chdir(self.repo)
         for scope in ("local", "global"):
             for k, v in init[scope].items():
